@@ -1,6 +1,10 @@
 package c05
 
-import "verif/verdict"
+import (
+	"os"
+
+	"verif/verdict"
+)
 
 var runB func(c *verdict.Ctx)
 
@@ -9,6 +13,11 @@ func Run(c *verdict.Ctx) int {
 	c.Rule = "C05a: one case = a crash plan for a real node in a child process: a first-level crash point taken from the full enumeration (every DB write of block/state/tx-index stores before and after, the fail.Fail points, every application call boundary, every signer call, every WAL fsync, the sign-state temp-file point) of a census run over three heights with a validator addition, removal and two parameter changes, an optional WAL tail cut / garbage tail, 0-2 further crashes during recovery, a final clean run and a handshake; non-trivial = the child actually died at a planned point (exit 87 / fail-test marker); distinct by plan. C05b: see coverage.c05b"
 	c.Assume("process-crash semantics: everything handed to the OS survives (plus an explicitly cut or garbled unsynced WAL tail); loss of unsynced DB writes is not modelled",
 		"the application journal is written at the ABCI boundary by harness/recapp", "single-validator chain")
+	if os.Getenv("VERIF_C05_STAGE") == "b" {
+		// child stage: C05b only (race-built binary)
+		runBInProc(c)
+		return c.Finish(2)
+	}
 	runA(c)
 	if runB != nil {
 		runB(c)
